@@ -882,12 +882,18 @@ pub mod __verif {
             receiver
         }
 
-        /// one `handle_waiting_wakers` call; returns whether the stream was flushed
-        pub fn handle(&mut self, queue_capacity: usize, drained: bool, entry_count: usize) -> bool {
-            let mut flushed = false;
+        /// one `handle_waiting_wakers` call; `flush_stream` is invoked where the writer thread
+        /// would flush its stream
+        pub fn handle(
+            &mut self,
+            queue_capacity: usize,
+            flush_stream: impl FnOnce(),
+            drained: bool,
+            entry_count: usize,
+        ) {
             self.tracker.handle_waiting_wakers(
                 || queue_capacity,
-                || flushed = true,
+                flush_stream,
                 if drained {
                     DrainResult::Drained
                 } else {
@@ -895,7 +901,6 @@ pub mod __verif {
                 },
                 entry_count,
             );
-            flushed
         }
 
         pub fn will_progress_on_drained_queue(&mut self) -> bool {
